@@ -20,6 +20,7 @@ import (
 type c12Case struct {
 	Stream     []EnvSpec `json:"stream"`
 	TLS        bool      `json:"tls,omitempty"`
+	GapMs      int       `json:"gapMs,omitempty"`        // pause before every send whose context is "none"
 	RefusedAt  []int     `json:"refusedAt,omitempty"`    // before these envelopes (index >= 1, no TLS) the peer writes a relative of the previous envelope that the decoder refuses (its id is a number): Receive answers it with an error, and the envelopes around it are unaffected
 	LimitSlack int       `json:"limitSlack,omitempty"`   // > 0: the receiver's ReadLimit is the largest frame of the stream plus this many bytes (it bounds one envelope, not the connection)
 	TLS12      bool      `json:"tls12,omitempty"`        // TLS capped at version 1.2
@@ -184,6 +185,10 @@ func runC12(c *c12Case) *c12Obs {
 				cancel()
 				var ms int
 				switch {
+				case c.SendCtx[i] == "none":
+					// a context that never ends (after a pause, so that whatever an earlier send left on the connection has run out)
+					time.Sleep(time.Duration(c.GapMs) * time.Millisecond)
+					ctx, cancel = context.WithCancel(context.Background())
 				case c.SendCtx[i] == "dead":
 					// over before the call: nothing of this envelope may ever reach the peer
 					ctx, cancel = context.WithCancel(context.Background())
@@ -217,7 +222,7 @@ func runC12(c *c12Case) *c12Obs {
 		}
 		obs.RecvPanic = Protect(func() {
 			for len(obs.Recv) < len(built) {
-				d := 40 * time.Second
+				d := 40*time.Second + time.Duration(c.GapMs*len(built))*time.Millisecond // (a sender that pauses is waited for)
 				if c.RecvCtxMs > 0 {
 					d = time.Duration(c.RecvCtxMs) * time.Millisecond
 				}
@@ -507,6 +512,14 @@ func TestC12Sweep(t *testing.T) {
 			run(&c12Case{Stream: big, PipeCap: cap, ReadPlan: []Fault{{Op: FStall, D: 7000}}, SendCtx: []string{ctx0}})
 			run(&c12Case{Stream: big, PipeCap: cap, ReadPlan: []Fault{{Op: FStall, D: 7000}}, SendCtx: []string{"", ctx0}})
 			run(&c12Case{Stream: big, PipeCap: cap, TLS: true, ReadPlan: []Fault{{Op: FStall, D: 7000}}, SendCtx: []string{ctx0}})
+		}
+	}
+	// sends with a deadline, then (after the deadline has long passed) sends with a context that never ends, and the other way round
+	for _, tls := range []bool{true, false} {
+		for _, gap := range []int{0, 500, 40000} {
+			run(&c12Case{Stream: big, TLS: tls, GapMs: gap, SendCtx: []string{"deadline:200", "none", "deadline:200", "none"}})
+			run(&c12Case{Stream: big, TLS: tls, GapMs: gap, SendCtx: []string{"none", "deadline:200", "none", ""}})
+			run(&c12Case{Stream: big, TLS: tls, GapMs: gap, PipeCap: 200, SendCtx: []string{"deadline:3000", "none", "none", "none"}})
 		}
 	}
 	// refused relatives between the envelopes: what is refused leaves nothing behind in what follows
